@@ -350,4 +350,92 @@ theorem applyWrites_idem (ws : List (Key × Bytes)) (s : Store) :
   have := applyWrites_idem_rev ws.reverse s
   simpa using this
 
+/-! ## histories: the writes that reach the hashed key space (vocabulary of `Spec.C15`) -/
+
+/-- the key/value writes that reach the hashed key space: those of executed blocks **and**, as the
+code stands, one write of `/finalizedHeight` per successful `SetFinal` -/
+def writesOf : Op → List (Key × Bytes)
+  | .exec txs => (match stage txs with | .ok ws => ws | .error _ => [])
+  | .final h => if h = 0 then [] else [(finalKey, dec h)]
+  | _ => []
+
+def writes (ops : List Op) : List (Key × Bytes) := ops.flatMap writesOf
+
+
+theorem finalKey_not_reserved : isReserved finalKey = false := by decide
+
+theorem writesOf_not_reserved (op : Op) : ∀ w ∈ writesOf op, isReserved w.1 = false := by
+  cases op with
+  | exec txs =>
+    simp only [writesOf]
+    split
+    · next ws h => exact stage_not_reserved h
+    · simp
+  | final h =>
+    simp only [writesOf]
+    split
+    · simp
+    · intro w hw; simp at hw; subst hw; exact finalKey_not_reserved
+  | _ => simp [writesOf]
+
+theorem step_sorted {s : St} (op : Op) (hs : Sorted s.store) : Sorted (step s op).store := by
+  cases op with
+  | init =>
+    simp only [step, initChain]
+    split
+    · split <;> exact hs
+    · exact put_sorted (put_sorted hs)
+  | exec txs =>
+    simp only [step, executeTxs]
+    split
+    · exact hs
+    · exact applyWrites_sorted hs
+  | final h =>
+    simp only [step, setFinal]
+    split
+    · exact hs
+    · exact put_sorted hs
+  | inject tx => simp only [step, injectTx]; split <;> exact hs
+  | getTxs => exact hs
+  | reopen => exact hs
+
+/-- one step, seen through the hashed part of the store -/
+theorem step_user {s : St} (op : Op) (hs : Sorted s.store) :
+    user (step s op).store = applyWrites (writesOf op) (user s.store) := by
+  cases op with
+  | init =>
+    simp only [step, initChain, writesOf, applyWrites, List.foldl_nil]
+    split
+    · split <;> rfl
+    · rw [user_put_reserved _ _ (by decide), user_put_reserved _ _ (by decide)]
+  | exec txs =>
+    simp only [step, executeTxs, writesOf]
+    split
+    · next e h => simp [h, applyWrites]
+    · next ws h => simp only [h]; exact user_applyWrites (stage_not_reserved h) hs
+  | final h =>
+    simp only [step, setFinal, writesOf]
+    split
+    · rfl
+    · exact user_put_user _ finalKey_not_reserved hs
+  | inject tx => simp only [step, injectTx, writesOf]; split <;> rfl
+  | getTxs => rfl
+  | reopen => rfl
+
+theorem foldl_sorted (ops : List Op) {s : St} (hs : Sorted s.store) : Sorted (ops.foldl step s).store := by
+  induction ops generalizing s with
+  | nil => exact hs
+  | cons op r ih => exact ih (step_sorted op hs)
+
+theorem foldl_user (ops : List Op) {s : St} (hs : Sorted s.store) :
+    user (ops.foldl step s).store = applyWrites (writes ops) (user s.store) := by
+  induction ops generalizing s with
+  | nil => rfl
+  | cons op r ih =>
+    simp only [List.foldl_cons, writes, List.flatMap_cons]
+    rw [ih (step_sorted op hs), step_user op hs, applyWrites_append]
+    rfl
+
+theorem run_sorted (ops : List Op) : Sorted (run ops).store := foldl_sorted ops sorted_nil
+
 end KVExec
